@@ -1,4 +1,10 @@
-"""C08 — combined over the three quantile sketch kinds (parts built separately: c08kll, c08req, c08quant)."""
+"""C08 — combined over family parts (built separately: c08kll, c08req, c08quant)."""
 from ..combine import combined_spec
 
-SPEC = combined_spec("C08", ["c08kll", "c08req", "c08quant"], "C08")
+SPEC = combined_spec("C08", ['c08kll', 'c08req', 'c08quant'], "C08")
+CLAIM_TEXT = ('Quantile sketches are unbiased over their own randomness: kernel-checked theorems that the number of coin flips and all result shapes depend only on operand shapes, every compaction is balanced, and the sum over ALL 2^F coin vectors of the weight below any y equals 2^F times the true count, for every history / merge tree (KLL, classic quantiles; REQ under the stated coin-provenance condition, with the refuted full statement kept as a witness); the implementation is tied by enumerating whole coin trees through the hooked random source and comparing every leaf with the model. '
+              + "Parts: " + " ".join(SPEC.claim_texts))
+CLAIM = dict(text=CLAIM_TEXT,
+             note='Statistical closeness to the published error bound is not decided (only the formula is tied); fairness of the real random_bit engine is assumed.',
+             technique='Lean 4 proofs over complete coin trees (sum over all coin vectors) + exhaustive coin-tree enumeration on the real code via the random-source hook',
+             design='DESIGN.md §3 C08')
